@@ -1073,6 +1073,31 @@ def f46():
     t = threading.Thread(target=body)
     t.start()
     t.join()
+    import time
+
+    for _ in range(200):            # (join() returns a little before the thread's state, with its greenlets, is torn down)
+        if not t.is_alive() and box["main"].dead:
+            break
+        time.sleep(0.01)
+    box2 = {}
+
+    def body2():                    # a second exited thread whose greenlets nobody has asked anything yet
+        box2["main"] = greenlet.getcurrent()
+        g = greenlet.greenlet(tgt2)
+        box2["g"] = g
+        g.switch()
+
+    def tgt2():
+        box2["main"].switch()
+
+    t2 = threading.Thread(target=body2)
+    t2.start()
+    t2.join()
+    time.sleep(0.3)
+    st2 = stackscope.extract(box2["g"])
+    if st2.frames or st2.error is not None:
+        return (f"F46: greenlet suspended when its thread exited (nobody asked it anything since): frames {[f.funcname for f in st2.frames]}, "
+                f"error {st2.error!r}")
     out = []
     for name in ("g", "main"):
         st = stackscope.extract(box[name])          # asked BEFORE anyone looks at .dead
